@@ -185,13 +185,16 @@ def run_model(case, path, working_directory=None):
     det = pyx.make_detector("CCD", case["oy"], case["ox"])
     via = case["via"]
     args = {"position": list(case["pos"]), "align": case["align"]}
+    mult, tscale = float(case.get("mult", 1.0)), float(case.get("tscale", 1.0))
+    times = [float(t) for t in case.get("times", [1.0])]
     if via == "load_image":
         groups = {"photon_collection": [{"name": "load_image", "func": "pyxel.models.photon_collection.load_image",
-                                         "arguments": {"image_file": path, **args}}]}
+                                         "arguments": {"image_file": path, "multiplier": mult, "time_scale": tscale, **args}}]}
         bucket = "photon"
     elif via == "load_charge":
+        mult = 1.0
         groups = {"charge_generation": [{"name": "load_charge", "func": "pyxel.models.charge_generation.load_charge",
-                                         "arguments": {"filename": path, **args}}]}
+                                         "arguments": {"filename": path, "time_scale": tscale, **args}}]}
         bucket = "charge"
     elif via == "qe_map":
         groups = {
@@ -202,9 +205,14 @@ def run_model(case, path, working_directory=None):
         bucket = "charge"
     else:
         raise ValueError(via)
-    mode = Exposure(readout=Readout(times=[1.0]), working_directory=working_directory)  # sets the global option
+    if via == "qe_map":
+        mult, tscale, times = 1.0, 1.0, [1.0]
+    mode = Exposure(readout=Readout(times=times), working_directory=working_directory)  # sets the global option
     res = pyx.run(mode, det, pyx.make_pipeline(groups))
-    return res[bucket].values[0]
+    # the bucket of every readout, divided by the scale the model is asked to apply (all factors are powers of two,
+    # so this is exact): what remains must be the placed content of the file
+    steps = [t - p for t, p in zip(times, [0.0] + times[:-1])]
+    return [res[bucket].values[i] / ((st / tscale) * mult) for i, st in enumerate(steps)]
 
 
 def impl_load(case, path, working_directory=None):
@@ -219,11 +227,19 @@ def impl_load(case, path, working_directory=None):
             out = load_cropped_and_aligned_image(shape=(case["oy"], case["ox"]), filename=path,
                                                  position_x=case["pos"][1], position_y=case["pos"][0],
                                                  align=case["align"])
-        else:
-            out = run_model(case, path, working_directory)
+            ans = {"ok": grid_bits(out)}
+            if case.get("mutate"):
+                # the caller must not be able to corrupt the cache through the array it received
+                try:
+                    out *= 3.0
+                    ans["mutated"] = "accepted"
+                except ValueError:
+                    ans["mutated"] = "refused (read-only)"
+            return ans
+        outs = run_model(case, path, working_directory)
     except Exception as e:  # noqa: BLE001
         return err_answer(e)
-    return {"ok": grid_bits(out)}
+    return {"ok": grid_bits(outs[-1]), "all": [grid_bits(o) for o in outs]}
 
 
 def impl_model_case(case, tmp):
@@ -278,7 +294,8 @@ def impl_history(case, tmp):
             else:
                 name = ev["name"]
                 arg = real_path(base, name) if name.startswith("/") else name
-                c = {"oy": case["oy"], "ox": case["ox"], "pos": ev["pos"], "align": ev["align"], "via": ev["via"]}
+                c = {"oy": case["oy"], "ox": case["ox"], "pos": ev["pos"], "align": ev["align"], "via": ev["via"],
+                     **{k: ev[k] for k in ("mult", "tscale", "times", "mutate") if k in ev}}
                 answers.append(impl_load(c, arg, real_path(base, wd) if wd else None))
     finally:
         os.chdir(old_cwd)
@@ -446,8 +463,13 @@ def statement_history(case, answers):
                 if any(x is None for x in allowed) and ans["err"] == "ValueError":
                     continue
                 return f"event {n}: load of an existing, overlapping file failed: {ans}"
-            if ans["ok"] in [x for x in allowed if x is not None]:
+            good = [x for x in allowed if x is not None]
+            if all(g in good for g in ans.get("all", [ans["ok"]])):
                 continue
+            if ans["ok"] in good:
+                bad = [i for i, g in enumerate(ans["all"]) if g not in good]
+                return (f"event {n}: load via {ev['via']} of '{ev['name']}': readout(s) {bad} of {len(ans['all'])} do not hold the "
+                        f"file's content scaled by time_step / time_scale * multiplier")
             # which other version is it?
             for o in [e for e in case["events"][:n] if e["ev"] == "write" and e is not w]:
                 if expected_placed(case, ev, o) == ans["ok"]:
@@ -455,7 +477,8 @@ def statement_history(case, answers):
                     return (f"event {n}: load via {ev['via']} of '{ev['name']}' (working directory '{wd}', designates '{target}') "
                             f"returned version {o['version']} — {where} — although the file holds version {w['version']} "
                             f"(rewritten {w['how']})")
-            return f"event {n}: load returned neither the current nor an earlier content"
+            return (f"event {n}: load via {ev['via']} of '{ev['name']}' (multiplier {ev.get('mult', 1)}, time_scale {ev.get('tscale', 1)}, "
+                    f"readout times {ev.get('times', [1.0])}) returned neither the file's content (scaled as requested) nor an earlier version")
     return None
 
 
@@ -560,7 +583,17 @@ def gen_history(rng, n):
 
         def load(name, via=None, fixed=True):
             a = dict(fixed_args) if fixed else {"pos": [rng.randrange(-1, 2), rng.randrange(-1, 2)], "align": None}
-            events.append({"ev": "load", "name": name, "via": via or rng.choice(["direct", "direct", "load_image", "load_charge"]), **a})
+            via = via or rng.choice(["direct", "direct", "load_image", "load_image", "load_charge"])
+            ev = {"ev": "load", "name": name, "via": via, **a}
+            if via == "direct":
+                ev["mutate"] = rng.random() < 0.5
+            else:
+                # the models scale what they load: time_step / time_scale (* multiplier), powers of two only
+                ev["tscale"] = rng.choice([1.0, 0.5, 2.0, 4.0])
+                ev["times"] = rng.choice([[1.0], [2.0], [2.0, 3.0, 5.0], [0.5, 1.0]])
+                if via == "load_image":
+                    ev["mult"] = rng.choice([1.0, 2.0, 0.5, 4.0])
+            events.append(ev)
 
         def ref(root, name):  # how a model would name the file
             return f"{root}/{name}" if root.startswith("/") and (not with_wd or rng.random() < 0.25) else name
@@ -609,6 +642,9 @@ def gen_history(rng, n):
         write(target)
         load(name, via=rng.choice(["direct", "load_image", "load_charge"]))
         load(name, via="direct")
+        # the same unchanged file loaded several times more, through the scaling models and directly
+        for via in rng.sample(["load_image", "load_image", "load_charge", "direct"], 3):
+            load(name, via=via)
         cases.append({"stream": "history", "id": i, "oy": oy, "ox": ox, "events": events})
     return cases
 
@@ -680,7 +716,7 @@ def violation_key(case, why):
     if s == "model":
         return f"C20:{case['via']}:placement"
     if s == "history":
-        return "C20:stale-cache" if ("returned version" in why or "missing file" in why) else "C20:history"
+        return "C20:stale-cache" if ("returned version" in why or "missing file" in why) else "C20:loaded-value-not-file-content" if ("neither the file" in why or "do not hold" in why) else "C20:history"
     return f"C20:load_{case['loader']}:{'text' if case['fmt'] in ('txt', 'data', 'csv') else case['fmt']}:" + (
         "values" if "value at" in why else "shape-or-error")
 
@@ -755,9 +791,15 @@ def body(ck: common.Check):
             elif s == "history":
                 ck.case(case, nontrivial=True, stream=s)
                 for ev in case["events"]:
+                    if ev["ev"] == "load" and ev["via"] != "direct":
+                        scaled = (ev.get("mult", 1.0) != 1.0 or ev.get("tscale", 1.0) != 1.0 or ev.get("times", [1.0]) != [1.0])
+                        ck.count("history:model-load:" + ("scale!=1" if scaled else "scale=1") + f":readouts={len(ev.get('times', [1.0]))}")
                     ck.count(f"history:{ev['ev']}" + (f":{ev['how']}" if ev["ev"] == "write" else "")
                              + (f":{ev['via']}:{'absolute' if ev['name'].startswith('/') else 'relative'}" if ev["ev"] == "load" else "")
                              + ((":set" if ev["wd"] else ":unset") if ev["ev"] == "setwd" else ""))
+                for a in impl:
+                    if a and a.get("mutated"):
+                        ck.count("history:mutation-of-returned-array:" + a["mutated"])
                 lab = label_history(case, impl, memo_ids[n])
                 if lab != ans["model"]:
                     ck.disagreement(s, case, lab, ans["model"], key="C20:stale-cache" if lab in (ans["stale"], ans["unresolved"]) else None)
